@@ -304,7 +304,7 @@ def r2(ctx):
         ctx.functions_analysed.add(f.key)
         body_calls = [call_name(c) or "" for c in calls_in(f.node)]
         touches_list = any(isinstance(n, ast.Attribute) and n.attr == "_list" for n in ast.walk(f.node))
-        touches_set = any(c.startswith("set.") for c in body_calls)
+        touches_set = any(c.startswith("set.") or c.startswith("super().") for c in body_calls)      # `set.add(self, x)` / `super().add(x)`
         delegates = any(c.startswith("self.") and c.split(".")[1] in members for c in body_calls)
         ctx.check(
             (touches_list and touches_set) or delegates, key,
@@ -1294,3 +1294,110 @@ R.mutant("rob-orderedset-add-early-return-wrong-polarity", CY,
 R.mutant("rob-orderedset-init-de-morgan-wrong-branch", CY,
          sub("            if isinstance(d, set) or isinstance(d, dict):\n                self._list = list(d)\n            else:\n                self._list = unique_list(d)\n",
              "            if not isinstance(d, set) and not isinstance(d, dict):\n                self._list = list(d)\n            else:\n                self._list = unique_list(d)\n"), "C54-R2")
+
+# ---- round 2 (str2-w): seeds C54_3 / C54_4 and the family they belong to (C54-R5, bounded model check)
+_IS_SDU_OLD = ("    def symmetric_difference_update(self, iterable: Iterable[Any], /):\n"
+               "        other: IdentitySet = self.symmetric_difference(iterable)\n"
+               "        self._members = other._members\n")
+_IS_SDU_HEAD = "    def symmetric_difference_update(self, iterable: Iterable[Any], /):\n"
+# seed C54_3: membership toggled once per element of the argument (an object given twice is toggled back)
+R.mutant("identityset-symdiff-update-toggles-per-element", CY, sub(
+    _IS_SDU_OLD,
+    _IS_SDU_HEAD +
+    "        members: Dict[int, Any] = self._members\n"
+    "        for obj in list(iterable):\n"
+    "            key = _get_id(obj)\n"
+    "            if key in members:\n"
+    "                del members[key]\n"
+    "            else:\n"
+    "                members[key] = obj\n"), "C54-R5")
+# same family: a one-shot iterator argument is consumed by the first probe
+R.mutant("identityset-intersection-update-rereads-iterator", CY, sub(
+    "        other: IdentitySet = self.intersection(iterable)\n        self._members = other._members\n",
+    "        self._members = {\n"
+    "            k: v\n"
+    "            for k, v in self._members.items()\n"
+    "            if k in {_get_id(obj) for obj in iterable}\n"
+    "        }\n"), "C54-R5")
+# same family: the pure operation shares the receiver's member dict
+R.mutant("identityset-union-shares-members", CY, sub(
+    "        result: IdentitySet = self.__class__()\n        result._members.update(self._members)\n        result.update(iterable)\n",
+    "        result: IdentitySet = self.__new__(self.__class__)\n        result._members = self._members\n        result.update(iterable)\n"),
+    "C54-R5")
+R.mutant("orderedset-difference-update-keeps-order-list", CY, sub(
+    "        set.difference_update(self, *other)\n        self._list = [a for a in self._list if a in self]\n",
+    "        set.difference_update(self, *other)\n"), "C54-R5")
+R.mutant("orderedset-union-appends-arguments-reversed", CY, sub(
+    "        result.update(*other)\n        return result\n", "        result.update(*reversed(other))\n        return result\n"), "C54-R5")
+# benign: the in-place toggle done right (argument de-duplicated into a dict first; `s ^= s` works on a copy)
+R.mutant("benign-identityset-symdiff-update-in-place-deduplicated", CY, sub(
+    _IS_SDU_OLD,
+    _IS_SDU_HEAD +
+    "        members: Dict[int, Any] = self._members\n"
+    "        incoming: Dict[int, Any]\n"
+    "        if isinstance(iterable, IdentitySet):\n"
+    "            incoming = dict(cython.cast(IdentitySet, iterable)._members)\n"
+    "        else:\n"
+    "            incoming = {_get_id(obj): obj for obj in iterable}\n"
+    "        for key, obj in incoming.items():\n"
+    "            if key in members:\n"
+    "                del members[key]\n"
+    "            else:\n"
+    "                members[key] = obj\n"), None)
+# benign: adoption of the sibling's result extracted into a helper
+R.mutant("benign-identityset-update-siblings-adopt-helper", CY, chain(
+    sub(_IS_SDU_OLD, _IS_SDU_HEAD + "        self._adopt(self.symmetric_difference(iterable))\n\n"
+                                    "    def _adopt(self, other: IdentitySet) -> None:\n"
+                                    "        self._members = other._members\n"),
+    sub("        other: IdentitySet = self.difference(iterable)\n        self._members = other._members\n",
+        "        self._adopt(self.difference(iterable))\n")), None)
+# benign: inverted isinstance branch + alias in the pure sibling
+R.mutant("benign-identityset-symdiff-inverted-branch", CY, sub(
+    "        if isinstance(iterable, IdentitySet):\n"
+    "            other = cython.cast(IdentitySet, iterable)._members\n"
+    "        else:\n"
+    "            other = {_get_id(obj): obj for obj in iterable}\n"
+    "        result._members = {\n"
+    "            k: v for k, v in self._members.items() if k not in other\n"
+    "        }\n",
+    "        mine = self._members\n"
+    "        if not isinstance(iterable, IdentitySet):\n"
+    "            other = {_get_id(obj): obj for obj in iterable}\n"
+    "        else:\n"
+    "            other = cython.cast(IdentitySet, iterable)._members\n"
+    "        result._members = {k: v for k, v in mine.items() if k not in other}\n"), None)
+
+_ROR_OLD = ("    ) -> immutabledict[_KT, _VT]:\n"
+            "        return immutabledict(\n"
+            "            dict.__ror__(self, __value),  # type: ignore[call-overload,operator,unused-ignore]  # noqa: E501\n"
+            "        )\n")
+# seed C54_4: the reflected operator computes self | value
+R.mutant("immutabledict-ror-through-union", IMM, sub(
+    _ROR_OLD, "    ) -> immutabledict[_KT, _VT]:\n        return self._union_other((__value,))  # type: ignore[no-any-return]\n"), "C54-R5")
+R.mutant("immutabledict-or-operands-swapped", IMM, sub(
+    "            dict.__or__(self, __value),  # type: ignore[call-overload,operator,unused-ignore]  # noqa: E501\n",
+    "            dict.__or__(__value, self),  # type: ignore[call-overload,operator,unused-ignore]  # noqa: E501\n"), "C54-R5")
+R.mutant("immutabledict-union-returns-plain-dict-operand", IMM, sub(
+    "            if only_one is False and isinstance(d, immutabledict):\n", "            if only_one is False and isinstance(d, dict):\n"), "C54-R5")
+R.mutant("immutabledict-union-skips-equal-sized-operand", IMM, sub(
+    "            if not d:\n                continue\n            if isinstance(d, dict):\n",
+    "            if not d or len(d) == len(result):\n                continue\n            if isinstance(d, dict):\n"), "C54-R5")
+# benign: the reflected operator routed through union() the right way round / built by hand
+R.mutant("benign-immutabledict-ror-left-operand-union-self", IMM, sub(
+    _ROR_OLD, "    ) -> immutabledict[_KT, _VT]:\n        return immutabledict(__value).union(self)  # type: ignore[no-any-return]\n"), None)
+R.mutant("benign-immutabledict-ror-copy-then-update", IMM, sub(
+    _ROR_OLD, "    ) -> immutabledict[_KT, _VT]:\n"
+              "        merged = dict(__value)\n"
+              "        merged.update(self)\n"
+              "        return immutabledict(merged)\n"), None)
+R.mutant("benign-immutabledict-union-other-direct-loops", IMM, chain(
+    sub("        for i in range(size):\n            d = others[i]\n            if not d:\n                continue\n\n            if only_one is False and isinstance(d, immutabledict):\n",
+        "        for d in others:\n            if not d:\n                continue\n\n            if only_one is False and isinstance(d, immutabledict):\n"),
+    sub("        for i in range(size):\n            d = others[i]\n            if not d:\n                continue\n            if isinstance(d, dict):\n",
+        "        for d in others:\n            if d:\n                pass\n            else:\n                continue\n            if isinstance(d, dict):\n")), None)
+# benign: the builtin half reached through super() instead of the explicit `set.` spelling (interpreted with Python's own super())
+R.mutant("benign-orderedset-builtin-half-through-super", CY, chain(
+    sub("        set.difference_update(self, *other)\n", "        super().difference_update(*other)\n"),
+    sub("            self._list = []\n            set.__init__(self)\n", "            self._list = []\n            super().__init__()\n")), None)
+R.mutant("orderedset-super-difference-update-wrong-sibling", CY,
+         sub("        set.difference_update(self, *other)\n", "        super().intersection_update(*other)\n"), "C54-R5")
